@@ -275,105 +275,194 @@ Qed.
 Lemma agree_weaken hw hw' (a b : vstack value) : agree VNil hw a b -> hw' = hw -> agree VNil hw' a b.
 Proof. intros H ->. exact H. Qed.
 
+Ltac sm_cbn :=
+  cbn [st_stack st_calls st_globals st_heap st_open st_log st_count st_rem set_rem set_stack set_calls
+       set_globals set_heap set_open set_log tick sres_sim rres_sim nres_sim closeres_sim fst snd] in *.
+Ltac sm_unfold :=
+  unfold push_next, of_vres, binary_op, spush, spop, slast, scount, sget, sset, sclear_until, spop_w_offset,
+         speek, salloc, halloc, push_frame, top_offset, write_local, sraw_get, sraw_set, spop_n, set_table,
+         log_push in *.
+
+(* side conditions: bounds that follow from the agreement / frame facts in the context *)
+Ltac bounds :=
+  repeat match goal with
+         | H : agree VNil _ _ _ |- _ => apply agree_le in H
+         | H : frames_ok _ (_ :: _) |- _ =>
+             let H1 := fresh in pose proof (frames_ok_head H) as H1; apply frames_ok_tail in H
+         end;
+  cbn [op_ok vcount vdata fr_off] in *; try exact I; lia.
+
+(* l < hw for the location of an open upvalue found in the heap *)
+Ltac uploc_bounds :=
+  match goal with
+  | Hup : uploc_ok _ ?heap, Hx : hget ?heap ?x = Some (OUp ?u), Hl : u_loc ?u = Some ?l |- ?l < _ =>
+      let B := fresh in pose proof (Hup x u l Hx Hl) as B; bounds
+  end.
+
+(* one stack operation executed on both stacks *)
+Ltac lock :=
+  match goal with
+  (* reads first: the values read on the second stack are those read on the first *)
+  | H : agree VNil ?hw ?ka ?kb |- context [nth ?l (vdata ?kb) VNil] =>
+      rewrite (@agree_nth hw ka kb l H) by uploc_bounds
+  | H : agree VNil ?hw ?ka ?kb |- context [vs_last VNil ?kb] =>
+      rewrite <- (@agree_last value VNil hw ka kb H)
+  | H : agree VNil ?hw ?ka ?kb |- context [{| vcount := vcount ?kb; vdata := upd (vdata ?kb) ?l ?v |}] =>
+      let Ha := fresh "Ha" in let ka' := fresh "ka" in let kb' := fresh "kb" in
+      pose proof (@agree_raw_set hw ka kb l v H) as Ha;
+      set (ka' := {| vcount := vcount ka; vdata := upd (vdata ka) l v |}) in *;
+      set (kb' := {| vcount := vcount kb; vdata := upd (vdata kb) l v |}) in *;
+      clearbody ka' kb'
+  | H : agree VNil ?hw ?ka ?kb |- context [vcount ?kb] =>
+      rewrite (@agree_count hw ka kb H)
+  (* then the operations *)
+  | H : agree VNil ?hw ?ka ?kb |- context [vs_step VNil ?kb ?op] =>
+      let Ho := fresh "Ho" in let Ha := fresh "Ha" in
+      assert (Hop : op_ok hw op) by bounds;
+      destruct (@vs_step_agree value VNil hw ka kb op H Hop) as [Ho Ha]; clear Hop;
+      destruct (vs_step VNil ka op) as [? ?]; destruct (vs_step VNil kb op) as [? ?];
+      cbn [fst snd] in Ho, Ha; symmetry in Ho; subst
+  | H : agree VNil ?hw ?ka ?kb |- context [vs_push ?kb ?v] =>
+      let Ho := fresh "Ho" in let Ha := fresh "Ha" in
+      destruct (@agree_push value VNil hw ka kb v H) as [Ho Ha];
+      destruct (vs_push ka v) as [? ?]; destruct (vs_push kb v) as [? ?];
+      cbn [fst snd] in Ho, Ha; symmetry in Ho; subst
+  | H : agree VNil ?hw ?ka ?kb |- context [vs_pop VNil ?kb] =>
+      let Ho := fresh "Ho" in let Ha := fresh "Ha" in
+      destruct (@agree_pop value VNil hw ka kb H) as [Ho Ha];
+      destruct (vs_pop VNil ka) as [? ?]; destruct (vs_pop VNil kb) as [? ?];
+      cbn [fst snd] in Ho, Ha; symmetry in Ho; subst
+  | H : agree VNil ?hw ?ka ?kb |- context [vs_pop_n VNil ?kb ?n] =>
+      let Ha := fresh "Ha" in
+      pose proof (@agree_pop_n hw ka kb n H) as Ha;
+      destruct (vs_pop_n VNil ka n) as [? ?]; destruct (vs_pop_n VNil kb n) as [? ?]; cbn [fst] in Ha
+  end.
+
+Ltac destruct_inner :=
+  match goal with
+  | |- context [match ?x with _ => _ end] =>
+      lazymatch x with
+      | context [match _ with _ => _ end] => fail
+      | _ => destruct x eqn:?
+      end
+  end.
+
+(* a leaf: the two result states are related *)
+Ltac goal_cbn :=
+  cbn [st_stack st_calls st_globals st_heap st_open st_log st_count st_rem set_rem set_stack set_calls
+       set_globals set_heap set_open set_log tick].
+Ltac frames_tac :=
+  goal_cbn;
+  try match goal with H : st_calls ?a = _ |- context [st_calls ?a] => rewrite H end;
+  first [ assumption
+        | apply frames_ok_nil
+        | (eapply frames_ok_mono; [eassumption | bounds])
+        | (apply frames_ok_cons; [bounds | frames_tac]) ].
+Ltac obj_tac := intros ? ? E; first [discriminate E | (inversion E; subst; cbn; intros; first [discriminate | bounds])].
+Ltac uploc_tac :=
+  goal_cbn;
+  first [ assumption
+        | (eapply uploc_ok_mono; [eassumption | bounds])
+        | (apply uploc_ok_alloc; [uploc_tac | obj_tac])
+        | (apply uploc_ok_hset; [uploc_tac | obj_tac]) ].
+Ltac sim_leaf :=
+  match goal with
+  | H : agree VNil ?hw _ ?kb |- Sim _ _ =>
+      exists hw, kb; split; [reflexivity | split; [exact H | split; [frames_tac | uploc_tac]]]
+  end.
+
+Ltac sim_auto :=
+  repeat first
+    [ progress sm_unfold
+    | progress sm_cbn
+    | lock
+    | destruct_inner ];
+  repeat match goal with |- _ /\ _ => split end;
+  try reflexivity; try sim_leaf.
+
+Ltac sim_start :=
+  let hw := fresh "hw" in let kb := fresh "kb" in
+  intros (hw & kb & -> & Hag & Hfr & Hup).
+
+
 Section SimStep.
   Variable F : fops.
   Variable bld : build.
   Variable P : program.
 
-  Ltac sm_cbn :=
-    cbn [st_stack st_calls st_globals st_heap st_open st_log st_count st_rem set_rem set_stack set_calls
-         set_globals set_heap set_open set_log tick sres_sim rres_sim nres_sim closeres_sim fst snd] in *.
-  Ltac sm_unfold :=
-    unfold push_next, of_vres, binary_op, spush, spop, slast, scount, sget, sset, sclear_until, spop_w_offset,
-           speek, salloc, halloc, push_frame, top_offset, write_local, sraw_get, sraw_set, spop_n, set_table,
-           log_push in *.
+  Lemma close_upvalues_go_sim fuel top : forall a b,
+    Sim a b -> closeres_sim (close_upvalues_go fuel top a) (close_upvalues_go fuel top b).
+  Proof.
+    induction fuel as [|f IH]; intros a b HS; cbn [close_upvalues_go].
+    - cbn [closeres_sim]. split; [reflexivity|exact HS].
+    - revert HS. sim_start. sm_cbn.
+      destruct (st_open a) as [x|] eqn:Eo; [|cbn [closeres_sim]; sim_leaf].
+      destruct (hget (st_heap a) x) as [[t|bs|h ar|h|h ar ups|u]|] eqn:Ex;
+        try (cbn [closeres_sim]; repeat split; sim_leaf).
+      destruct (u_loc u) as [l|] eqn:El; [|cbn [closeres_sim]; repeat split; sim_leaf].
+      destruct (l <? top); [cbn [closeres_sim]; sim_leaf|].
+      apply IH. sm_unfold. sm_cbn.
+      rewrite (@agree_nth hw (st_stack a) kb l Hag) by uploc_bounds.
+      sim_leaf.
+  Qed.
 
-  (* side conditions: bounds that follow from the agreement / frame facts in the context *)
-  Ltac bounds :=
-    repeat match goal with
-           | H : agree VNil _ _ _ |- _ => apply agree_le in H
-           | H : frames_ok _ (_ :: _) |- _ =>
-               let H1 := fresh in pose proof (frames_ok_head H) as H1; apply frames_ok_tail in H
-           end;
-    cbn [op_ok vcount vdata fr_off] in *; try exact I; lia.
+  Lemma close_upvalues_from_sim top a b :
+    Sim a b -> closeres_sim (close_upvalues_from top a) (close_upvalues_from top b).
+  Proof.
+    intros HS. unfold close_upvalues_from.
+    assert (E : st_heap b = st_heap a) by (destruct HS as (? & ? & -> & _); reflexivity).
+    rewrite E. apply close_upvalues_go_sim. exact HS.
+  Qed.
 
-  (* one stack operation executed on both stacks *)
-  Ltac lock :=
-    match goal with
-    | H : agree VNil ?hw ?ka ?kb |- context [vs_step VNil ?kb ?op] =>
-        let Ho := fresh "Ho" in let Ha := fresh "Ha" in
-        assert (Hop : op_ok hw op) by bounds;
-        destruct (@vs_step_agree value VNil hw ka kb op H Hop) as [Ho Ha]; clear Hop;
-        destruct (vs_step VNil ka op) as [? ?]; destruct (vs_step VNil kb op) as [? ?];
-        cbn [fst snd] in Ho, Ha; symmetry in Ho; subst
-    | H : agree VNil ?hw ?ka ?kb |- context [vs_push ?kb ?v] =>
-        let Ho := fresh "Ho" in let Ha := fresh "Ha" in
-        destruct (@agree_push value VNil hw ka kb v H) as [Ho Ha];
-        destruct (vs_push ka v) as [? ?]; destruct (vs_push kb v) as [? ?];
-        cbn [fst snd] in Ho, Ha; symmetry in Ho; subst
-    | H : agree VNil ?hw ?ka ?kb |- context [vs_pop VNil ?kb] =>
-        let Ho := fresh "Ho" in let Ha := fresh "Ha" in
-        destruct (@agree_pop value VNil hw ka kb H) as [Ho Ha];
-        destruct (vs_pop VNil ka) as [? ?]; destruct (vs_pop VNil kb) as [? ?];
-        cbn [fst snd] in Ho, Ha; symmetry in Ho; subst
-    | H : agree VNil ?hw ?ka ?kb |- context [vs_last VNil ?kb] =>
-        rewrite <- (@agree_last value VNil hw ka kb H)
-    | H : agree VNil ?hw ?ka ?kb |- context [vcount ?kb] =>
-        rewrite (@agree_count hw ka kb H)
-    | H : agree VNil ?hw ?ka ?kb |- context [vs_pop_n VNil ?kb ?n] =>
-        let Ha := fresh "Ha" in
-        pose proof (@agree_pop_n hw ka kb n H) as Ha;
-        destruct (vs_pop_n VNil ka n) as [? ?]; destruct (vs_pop_n VNil kb n) as [? ?]; cbn [fst] in Ha
-    end.
-
-  Ltac destruct_inner :=
-    match goal with
-    | |- context [match ?x with _ => _ end] =>
-        lazymatch x with
-        | context [match _ with _ => _ end] => fail
-        | _ => destruct x eqn:?
-        end
-    end.
-
-  (* a leaf: the two result states are related *)
-  Ltac frames_tac :=
-    first [ assumption
-          | apply frames_ok_nil
-          | (eapply frames_ok_mono; [eassumption | bounds])
-          | (apply frames_ok_cons; [bounds | frames_tac]) ].
-  Ltac obj_tac := intros ? ? E; first [discriminate E | (inversion E; subst; cbn; intros; first [discriminate | bounds])].
-  Ltac uploc_tac :=
-    first [ assumption
-          | (eapply uploc_ok_mono; [eassumption | bounds])
-          | (apply uploc_ok_alloc; [uploc_tac | obj_tac])
-          | (apply uploc_ok_hset; [uploc_tac | obj_tac]) ].
-  Ltac sim_leaf :=
-    match goal with
-    | H : agree VNil ?hw _ ?kb |- Sim _ _ =>
-        exists hw, kb; split; [reflexivity | split; [exact H | split; [frames_tac | uploc_tac]]]
-    end.
-
-  Ltac sim_auto :=
-    repeat first
-      [ progress sm_unfold
-      | progress sm_cbn
-      | lock
-      | destruct_inner ];
-    repeat match goal with |- _ /\ _ => split end;
-    try reflexivity; try sim_leaf.
-
-  Ltac sim_start :=
-    let hw := fresh "hw" in let kb := fresh "kb" in
-    intros (hw & kb & -> & Hag & Hfr & Hup).
-
+  Lemma binary_op_sim ip a b op : Sim a b -> sres_sim (binary_op ip a op) (binary_op ip b op).
+  Proof. sim_start. sim_auto. Qed.
+  Lemma push_next_sim ip a b v : Sim a b -> sres_sim (push_next ip a v) (push_next ip b v).
+  Proof. sim_start. sim_auto. Qed.
   Lemma i_5_sim opc ip0 ip a b : Sim a b -> sres_sim (i_5 P opc ip0 ip a) (i_5 P opc ip0 ip b).
   Proof. sim_start. unfold i_5. sim_auto. Qed.
-  Lemma i_17_sim opc ip0 ip a b : Sim a b -> sres_sim (i_17 P opc ip0 ip a) (i_17 P opc ip0 ip b).
-  Proof. sim_start. unfold i_17. sim_auto. Qed.
+  Lemma i_6_sim opc ip0 ip a b : Sim a b -> sres_sim (i_6 P opc ip0 ip a) (i_6 P opc ip0 ip b).
+  Proof. sim_start. unfold i_6. sim_auto. Qed.
   Lemma i_8_sim opc ip0 ip a b : Sim a b -> sres_sim (i_8 P opc ip0 ip a) (i_8 P opc ip0 ip b).
   Proof. sim_start. unfold i_8. sim_auto. Qed.
+  Lemma i_17_sim opc ip0 ip a b : Sim a b -> sres_sim (i_17 P opc ip0 ip a) (i_17 P opc ip0 ip b).
+  Proof. sim_start. unfold i_17. sim_auto. Qed.
+  Lemma i_18_sim opc ip0 ip a b : Sim a b -> sres_sim (i_18 P opc ip0 ip a) (i_18 P opc ip0 ip b).
+  Proof. sim_start. unfold i_18. sim_auto. Qed.
   Lemma i_19_sim opc ip0 ip a b : Sim a b -> sres_sim (i_19 P opc ip0 ip a) (i_19 P opc ip0 ip b).
   Proof. sim_start. unfold i_19. sim_auto. Qed.
+  Lemma i_20_sim opc ip0 ip a b : Sim a b -> sres_sim (i_20 P opc ip0 ip a) (i_20 P opc ip0 ip b).
+  Proof. sim_start. unfold i_20. sim_auto. Qed.
   Lemma i_21_sim opc ip0 ip a b : Sim a b -> sres_sim (i_21 opc ip0 ip a) (i_21 opc ip0 ip b).
   Proof. sim_start. unfold i_21. sim_auto. Qed.
+  Lemma i_23_sim opc ip0 ip a b : Sim a b -> sres_sim (i_23 opc ip0 ip a) (i_23 opc ip0 ip b).
+  Proof. sim_start. unfold i_23. sim_auto. Qed.
+  Lemma i_27_sim opc ip0 ip a b : Sim a b -> sres_sim (i_27 F opc ip0 ip a) (i_27 F opc ip0 ip b).
+  Proof. sim_start. unfold i_27. sim_auto. Qed.
+  Lemma i_28_sim opc ip0 ip a b : Sim a b -> sres_sim (i_28 bld P opc ip0 ip a) (i_28 bld P opc ip0 ip b).
+  Proof. sim_start. unfold i_28. sim_auto. Qed.
+  Lemma i_29_30_sim opc ip0 ip a b :
+    Sim a b -> sres_sim (i_29_30 F bld P opc ip0 ip a) (i_29_30 F bld P opc ip0 ip b).
+  Proof. sim_start. unfold i_29_30. sim_auto. Qed.
+  Lemma i_31_sim opc ip0 ip a b : Sim a b -> sres_sim (i_31 opc ip0 ip a) (i_31 opc ip0 ip b).
+  Proof. sim_start. unfold i_31. sim_auto. Qed.
+  Lemma i_32_sim opc ip0 ip a b : Sim a b -> sres_sim (i_32 F opc ip0 ip a) (i_32 F opc ip0 ip b).
+  Proof. sim_start. unfold i_32. sim_auto. Qed.
+  Lemma i_33_sim opc ip0 ip a b : Sim a b -> sres_sim (i_33 F opc ip0 ip a) (i_33 F opc ip0 ip b).
+  Proof. sim_start. unfold i_33. sim_auto. Qed.
+  Lemma i_34_sim opc ip0 ip a b : Sim a b -> sres_sim (i_34 opc ip0 ip a) (i_34 opc ip0 ip b).
+  Proof. sim_start. unfold i_34. sim_auto. Qed.
+  Lemma i_35_sim opc ip0 ip a b : Sim a b -> sres_sim (i_35 P opc ip0 ip a) (i_35 P opc ip0 ip b).
+  Proof. sim_start. unfold i_35. sim_auto. Qed.
+  Lemma i_36_sim opc ip0 ip a b : Sim a b -> sres_sim (i_36 F bld P opc ip0 ip a) (i_36 F bld P opc ip0 ip b).
+  Proof. sim_start. unfold i_36. sim_auto. Qed.
+  Lemma i_37_42_sim opc ip0 ip a b : Sim a b -> sres_sim (i_37_42 P opc ip0 ip a) (i_37_42 P opc ip0 ip b).
+  Proof. sim_start. unfold i_37_42. sim_auto. Qed.
+  Lemma i_38_sim opc ip0 ip a b : Sim a b -> sres_sim (i_38 P opc ip0 ip a) (i_38 P opc ip0 ip b).
+  Proof. sim_start. unfold i_38. sim_auto. Qed.
+  Lemma i_39_sim opc ip0 ip a b : Sim a b -> sres_sim (i_39 F opc ip0 ip a) (i_39 F opc ip0 ip b).
+  Proof. sim_start. unfold i_39. sim_auto. Qed.
+  Lemma i_40_sim opc ip0 ip a b : Sim a b -> sres_sim (i_40 F opc ip0 ip a) (i_40 F opc ip0 ip b).
+  Proof. sim_start. unfold i_40. sim_auto. Qed.
+  Lemma i_41_sim opc ip0 ip a b : Sim a b -> sres_sim (i_41 F opc ip0 ip a) (i_41 F opc ip0 ip b).
+  Proof. sim_start. unfold i_41. sim_auto. Qed.
 End SimStep.
